@@ -232,6 +232,12 @@ class JSONSerializer(AbstractIncrementalPacketSerializer[Any, Any]):
                     },
                 ) from exc
             raise DeserializeError(msg) from exc
+        except (ValueError, RecursionError) as exc:
+            # Too deeply nested document, or integer string conversion length limit exceeded
+            msg = f"JSON decode error: {exc}"
+            if self.debug:
+                raise DeserializeError(msg, error_info={"document": document}) from exc
+            raise DeserializeError(msg) from exc
         return packet
 
     @final
@@ -297,6 +303,16 @@ class JSONSerializer(AbstractIncrementalPacketSerializer[Any, Any]):
                         "lineno": exc.lineno,
                         "colno": exc.colno,
                     },
+                ) from exc
+            raise IncrementalDeserializeError(msg, remaining_data) from exc
+        except (ValueError, RecursionError) as exc:
+            # Too deeply nested document, or integer string conversion length limit exceeded
+            msg = f"JSON decode error: {exc}"
+            if self.debug:
+                raise IncrementalDeserializeError(
+                    msg,
+                    remaining_data=remaining_data,
+                    error_info={"document": document},
                 ) from exc
             raise IncrementalDeserializeError(msg, remaining_data) from exc
         return packet, remaining_data
